@@ -56,6 +56,10 @@ theorem WF_declJson (d : Decl) : WF (declJson d) := by
   obtain ⟨n, u, hi⟩ := d
   cases u <;> cases hi <;> simp [declJson, WF, WFM] <;> decide
 
+theorem WF_extraDeclJson (d : Decl) : WF (extraDeclJson d) := by
+  obtain ⟨n, u, hi⟩ := d
+  cases hi <;> simp [extraDeclJson, WF, WFM] <;> decide
+
 theorem WF_dimsJson (dims : List (List Str)) : WF (dimsJson dims) :=
   WFL_map _ _ fun s _ => WFL_map _ _ fun _ _ => trivial
 
@@ -63,7 +67,7 @@ theorem WF_nsDirective (d : Directive) : WF (nsDirectiveJson d) :=
   ⟨trivial, WF_dimsJson _, WFL_map _ _ fun m _ => WF_declJson m, trivial⟩
 
 theorem WF_extraDirective (d : Directive) : WF (extraDirectiveJson d) :=
-  ⟨WF_dimsJson _, WFL_map _ _ fun m _ => WF_declJson m, trivial, trivial⟩
+  ⟨WF_dimsJson _, WFL_map _ _ fun m _ => WF_extraDeclJson m, trivial, trivial⟩
 
 theorem WF_recordJson (txt : F → List Nat) (n now : Nat) (r : Record F)
     (h : ∀ m ∈ r.members, MValOk txt m.2) : WF (recordJson txt n now r) := by
@@ -110,12 +114,12 @@ theorem fieldOf_ok (ops : FloatOps F) (txt : F → List Nat) (ht : TxtOk ops txt
 single line the operational model writes reads back as the JSON tree of the declarative record. -/
 theorem emf_refines_spec_global_read_partial (cfg : Config) (sw : Switches) (ops : FloatOps F) (txt : F → List Nat)
     (mult : Option Nat) (nowMs : Nat) (e : Entry F)
-    (hns : cfg.namespaces ≠ []) (hx : extrasOk cfg = true) (hm : multOk mult) (ht : TxtOk ops txt)
+    (hns : cfg.namespaces ≠ []) (hm : multOk mult) (ht : TxtOk ops txt)
     (hsplit : noSplit cfg e = true) (hv : validate cfg sw e = []) :
     (runEmf cfg sw ops txt mult nowMs e).1 = .ok ∧
     readLine (runEmf cfg sw ops txt mult nowMs e).2 =
       some (recordJson txt cfg.namespaces.length nowMs (mkRecord cfg ops mult e none (metricItems e) cfg.extra)) := by
-  have h := (emf_refines_spec_global_partial cfg sw ops txt mult nowMs e hns hx hm hsplit hv).2
+  have h := (emf_refines_spec_global_partial cfg sw ops txt mult nowMs e hns hm hsplit hv).2
   rw [h]
   refine ⟨rfl, readLine_print _ (WF_recordJson txt _ _ _ ?_)⟩
   intro m hmem
